@@ -360,7 +360,9 @@ func runC20(c *Ctx) {
 	}
 	// source networks: both JSON forms
 	// (the same network written with and without blanks, in both letter cases: one entry of the set)
-	calpha := []string{"10.0.0.0/8", "192.168.1.0/24", "::1/128", "A:B::/32", " 10.1.0.0/16 ", "", "fe80::/10", " 10.0.0.0/8", "10.0.0.0/8 ", "a:b::/32", "FE80::/10 ", "10.1.0.0/16"}
+	calpha := []string{"10.0.0.0/8", "192.168.1.0/24", "::1/128", "A:B::/32", " 10.1.0.0/16 ", "", "fe80::/10", " 10.0.0.0/8", "10.0.0.0/8 ", "a:b::/32", "FE80::/10 ", "10.1.0.0/16",
+		// one network spelled in ways an address parser would print differently: entries are texts, kept as written
+		"2001:0db8::1/32", "2001:db8:0:0:0:0:0:1/32", "2001:db8::1/32", "10.0.0.1/8", "010.0.0.0/8", "::ffff:10.0.0.0/104", "0:0:0:0:0:0:0:1/128", "10.0.0.0/08", "not a network", "10.0.0.0"}
 	ncidr := 400
 	if c.thorough() {
 		ncidr = 5000
